@@ -464,6 +464,13 @@ class Gen(object):
         o = self.w.slots[self.cands(self.is_real)[k]].obj if i is None else self.w.slots[i].obj
         fmt = fmt or self.clamp_fmt(self.near_fmt([bool(o.signed), o.n_word, o.n_frac]))
         op = {'op': 'new_from', 'src': k, 'fmt': fmt, 'kw': self.modes(full=True)}
+        if r.random() < 0.1:
+            # the format given through n_int and one other size
+            op['n_int'] = fmt[1] - fmt[2] - (1 if fmt[0] else 0)
+            op['fmt'] = [fmt[0] if r.random() < 0.8 else None] + ([fmt[1], None] if r.random() < 0.5 else [None, fmt[2]])
+            if op['fmt'][0] is None and not fmt[0]:
+                op['n_int'] = fmt[1] - fmt[2] - 1        # (no sign given: the constructor's default is signed)
+            return op
         if r.random() < 0.25:
             if r.random() < 0.5 or fmt[1] - fmt[2] < 0:
                 op['dtype'] = 'fxp-%s%d/%d' % ('s' if fmt[0] else 'u', fmt[1], fmt[2])
@@ -489,6 +496,18 @@ class Gen(object):
             op['src'] = None
         if r.random() < 0.2:
             op['fmt'] = self.partial_override(lo)
+        elif r.random() < 0.06:
+            self.n_int_override(lo, op)
+        return op
+
+    def n_int_override(self, lo, op):
+        """like= with the format override given through n_int and one other size (and maybe a sign)."""
+        r = self.rng
+        f = self.clamp_fmt(self.near_fmt([bool(lo.signed), lo.n_word, lo.n_frac]))
+        sg = f[0] if r.random() < 0.6 else None
+        rs = bool(lo.signed) if sg is None else sg
+        op['n_int'] = f[1] - f[2] - (1 if rs else 0)
+        op['fmt'] = [sg] + ([f[1], None] if r.random() < 0.5 else [None, f[2]])
         return op
 
     def partial_override(self, lo):
@@ -1314,6 +1333,8 @@ class Gen(object):
         op = {'op': 'new_like', 'like': self.cands().index(il), 'src': {'slot': self.cands().index(isrc)}}
         if self.rng.random() < 0.3:
             op['fmt'] = self.partial_override(self.w.slots[il].obj)
+        elif self.rng.random() < 0.1:
+            self.n_int_override(self.w.slots[il].obj, op)
         return op
 
     def g_conv_equal(self):
